@@ -175,6 +175,9 @@ func genBoxProps(c *Ctx, which string) {
 	genTrees(c, which, seeds)
 	genTopLevelEdits(c, which, files, names)
 	genSencShapes(c, which)
+	if which == "C02" && len(progBadBuilds) > 0 {
+		c.Fail("C02-built-progressive-size", fmt.Sprintf("Size() of API-built boxes disagrees with the bytes Encode writes (%d generated progressive files)", len(progBadBuilds)), "genProgFile", progBadBuilds[0], "")
+	}
 	if which != "C01" {
 		genMdatHistories(c, which)
 		for i, d := range files {
